@@ -163,3 +163,66 @@ Fixpoint after_all (d : disk) (h : list (fresh * list svc)) : disk :=
   | [] => d
   | (f, cfg) :: r => after_all (after f d cfg) r
   end.
+
+(* ---- what each configured service instance PRESENTS to a client ----
+   services/ssh/{ssh-simulator,auth,ssh-jail,ssh-proxy}.go, services/{ftp,smtp,ldap}: every
+   constructor calls its storage function (PrivateKey / Certificate) and keeps the object
+   it returns: PrivateKey returns a NEW *privateKey made from the stored bytes
+   (makePrivateKey) on every call, Certificate a new tls.Certificate.  The only documented
+   option touching identity is ssh-auth's `private-key` (the other ssh services tag an
+   unexported field, which the toml decoder never sets): decoding it calls
+   privateKey.UnmarshalText (pointer receiver) on the object the instance holds and overwrites it IN
+   PLACE.  Objects are cells of a heap; a connection is served with the content of the
+   instance's cell at that time (config.AddHostKey(s.key) per connection). *)
+Inductive ikind := KSim | KAuth | KJail | KProxy | KFtp | KSmtp | KLdap | KAgent.
+Record inst := mkInst { i_kind : ikind; i_opt : option bytes (* private-key option: the operator's key *) }.
+
+Definition kind_svc (k : ikind) : svc :=
+  match k with
+  | KSim | KAuth | KJail | KProxy => Ssh
+  | KFtp => Ftp | KSmtp => Smtp | KLdap => Ldap | KAgent => Agent
+  end.
+(* the stored item whose public side the client is shown *)
+Definition shown_item (k : ikind) : item :=
+  match k with
+  | KSim | KAuth | KJail | KProxy => SshKey
+  | KFtp => FtpCert | KSmtp => SmtpCert | KLdap => LdapCert | KAgent => AgentKey
+  end.
+
+Definition heap := list bytes.
+Fixpoint set_nth {A} (l : list A) (n : nat) (v : A) : list A :=
+  match l, n with
+  | [], _ => []
+  | _ :: r, O => v :: r
+  | x :: r, S n' => x :: set_nth r n' v
+  end.
+
+(* constructor of one instance: a new cell holding the stored identity; then the options *)
+Definition construct (stored : ikind -> bytes) (h : heap) (i : inst) : heap * nat :=
+  let c := length h in
+  let h1 := h ++ [stored (i_kind i)] in
+  match i_kind i, i_opt i with
+  | KAuth, Some p => (set_nth h1 c p, c)
+  | _, _ => (h1, c)
+  end.
+
+Fixpoint construct_all (stored : ikind -> bytes) (h : heap) (is : list inst) : heap * list nat :=
+  match is with
+  | [] => (h, [])
+  | i :: r =>
+      let '(h1, c) := construct stored h i in
+      let '(h2, cs) := construct_all stored h1 r in
+      (h2, c :: cs)
+  end.
+
+(* what a client of each instance is shown once all services are constructed *)
+Definition presented (stored : ikind -> bytes) (is : list inst) : list bytes :=
+  let '(h, cs) := construct_all stored [] is in map (fun c => nth c h []) cs.
+
+(* specification: the stored identity, except for an ssh-auth instance explicitly given an
+   operator key, which presents that key - and nobody else does *)
+Definition presented_spec (stored : ikind -> bytes) (i : inst) : bytes :=
+  match i_kind i, i_opt i with
+  | KAuth, Some p => p
+  | k, _ => stored k
+  end.
